@@ -387,7 +387,10 @@ func runScale(c *Config, specs []scaleSpec, workers int) func() {
 		go func() {
 			defer wg.Done()
 			for i := range next {
-				out[i] = scaleLine(specs[i])
+				// keep the rendered text only: the S-expression tree of a plan of 10^6 actions takes gigabytes
+				fs := scaleLine(specs[i])
+				txt := T("x", fs...).String()
+				out[i] = []Sx{A(txt[3 : len(txt)-1])}
 			}
 		}()
 	}
@@ -417,8 +420,8 @@ func scaleSpecs(c *Config) []scaleSpec {
 	mk("star", 65535, nil, -1)
 	mk("star", 65536, nil, 1)
 	mk("star", 65537, []int{2}, -1)
-	mk("diamonds", 65536+1+r.Intn(1000), nil, 1)
 	if c.Thorough() {
+		mk("diamonds", 65536+1+r.Intn(1000), nil, 1)
 		mk("diamonds", 10000+r.Intn(300), []int{1, 2}, 0)
 		mk("starmerge", 10000+r.Intn(300), []int{1, 20000}, 3)
 		mk("diamonds", 65536+1+r.Intn(1000), []int{1}, -1)
@@ -433,13 +436,14 @@ func scaleSpecs(c *Config) []scaleSpec {
 		}
 		mk("bush", 20000+r.Intn(1000), []int{1, 5}, 3)
 		mk("spine", 1000000, []int{1}, -1)
-		mk("star", 1000000, []int{1}, -1)
+		mk("star", 300000, []int{1}, -1)
 	}
 	return specs
 }
 
 func main() {
 	full := flag.Bool("full", false, "thorough tier: all 720 hash orders of every 6-commit DAG instead of every 24th")
+	scaleOnly := flag.Bool("scaleonly", false, "generate the large cases (kinds scale-*) only")
 	c := Setup()
 	defer c.Close()
 	if c.Replay != "" {
@@ -477,6 +481,10 @@ func main() {
 	emitScale := func() {}
 	if c.Tier != "search" {
 		emitScale = runScale(c, scaleSpecs(c), 3)
+	}
+	if *scaleOnly {
+		emitScale()
+		return
 	}
 	times := func(g pl.Graph) pl.Graph {
 		g.Times = pl.TimesFor(r.Intn(pl.NumTimeModes), g.N, r)
